@@ -137,9 +137,15 @@ func newPkg(pkg *packages.Package, u *Universe) Package {
 				p.funcs[x.Name()] = x
 			}
 		case *types.TypeName:
-			p.types[x.Name()] = x
+			// skip type parameters and types declared in function bodies
+			if x.Parent() == pkg.Types.Scope() {
+				p.types[x.Name()] = x
+			}
 		case *types.Const:
-			p.constants[x.Name()] = x
+			// skip constants declared in function bodies
+			if x.Parent() == pkg.Types.Scope() {
+				p.constants[x.Name()] = x
+			}
 		}
 	}
 
